@@ -198,6 +198,11 @@ func Drive(p Prop, o DriverOpts) int {
 		raceReports = len(reps)
 		seen := map[string]bool{}
 		for _, rep := range reps {
+			if raceClass(rep) == "no-zog-frame" {
+				merged.Counters["race_reports_without_zog_frames(harness)"]++
+				inconclusive = append(inconclusive, "race report without any zog frame (a race inside the harness): "+tail(rep, 600))
+				continue
+			}
 			sig := "data-race|" + raceClass(rep)
 			if seen[sig] {
 				continue
@@ -455,7 +460,7 @@ func collectRaceReports(dir string) []string {
 	return out
 }
 
-var frameRe = regexp.MustCompile(`(?m)^  ([^\s(]+)\(`)
+var frameRe = regexp.MustCompile(`(?m)^  (\S+)\(\)\s*$`)
 
 // raceClass de-duplicates a report by the first zog frames of both accesses (line numbers stripped).
 func raceClass(rep string) string {
